@@ -939,6 +939,55 @@ def fam_optprod(tier, outdir):
             "wall_tlc": time.time() - t0, "asan_replayed": 0, "replay_stride": stride}
 
 
+def fam_real(tier, outdir):
+    """The Launch-family scripts (wiring / env / env2) replayed on the REAL kernel: real descriptors, real fork/exec,
+    a real helper child reporting what it was given (harness/real). Same scripts, same expectations as over simk."""
+    import tempfile
+    t0 = time.time()
+    root = tempfile.mkdtemp(prefix="vreal_")
+    try:
+        rd, vc = vlib.build_real(root)
+        vlib.make_real_root(root, vc)
+        lines, states = [], 0
+        for fam, std in (("wiring", "all"), ("env", "open"), ("env2", "open")):
+            cfg = os.path.join(outdir, "real_%s.cfg" % fam)
+            write_cfg(cfg, "Spec", {"Family": '"%s"' % fam, "StdMode": '"%s"' % std}, ["VerdictSane"], view=None, action_constraint=None)
+            meta = os.path.join(outdir, "m_" + fam)
+            r = subprocess.run(["java", "-cp", vlib.TLA_CP, "tlc2.TLC", "-workers", "4", "-metadir", meta, "-config", cfg, os.path.join(SPEC, "MC_Launch.tla")],
+                               capture_output=True, cwd=SPEC)
+            shutil.rmtree(meta, ignore_errors=True)
+            ls = [l for l in r.stdout.splitlines() if l.startswith(b'<<"BEH"')]
+            st = parse_tlc_stats(r.stdout.decode("utf8", "replace")); states += st["states"]
+            if not ls:
+                raise Infra("no scripts for real replay of %s" % fam)
+            lines += ls
+        nproc = 8
+        procs = [subprocess.Popen([rd, root], stdin=subprocess.PIPE, stdout=subprocess.PIPE) for _ in range(nproc)]
+        chunks = [b"\n".join(lines[i::nproc]) + b"\n" for i in range(nproc)]
+        outs = []
+        threads = []
+        def feed(p, data, k):
+            o, _ = p.communicate(data); outs.append(o)
+        for k, (p, c) in enumerate(zip(procs, chunks)):
+            th = threading.Thread(target=feed, args=(p, c, k)); th.start(); threads.append(th)
+        for th in threads:
+            th.join()
+        bad, n, skipped = [], 0, 0
+        for o in outs:
+            for ln in o.decode("utf8", "replace").splitlines():
+                v = json.loads(ln); n += 1
+                if v.get("ok") == 1:
+                    skipped += 1 if v.get("skipped") else 0
+                else:
+                    bad.append(v)
+        if n != len(lines):
+            raise Infra("real replay lost scripts: %d of %d" % (n, len(lines)))
+        return {"family": "real", "tlc": {"states": states, "transitions": states, "depth": 2}, "scripts": n, "replayed": n - skipped, "ok": n - len(bad), "bad": bad,
+                "samples": [unescape_beh(lines[0] + b"\n")], "wall_tlc": time.time() - t0, "asan_replayed": 0, "replay_stride": 1, "skipped_on_real_kernel": skipped}
+    finally:
+        shutil.rmtree(root, ignore_errors=True)
+
+
 def fam_destroy(tier, outdir):
     consts = {"Handles": "{1}", "MaxTime": 5, "MaxCalls": 4, "PipeCap": 4, "MaxOut": 0, "ExitCodes": "{3}", "TermDelay": 1,
               "DlOpts": "{0, 2}", "Timeouts": "{0, 2}", "ThirdActs": '"Small"', "StrictFailedStart <- Loose": None}
@@ -998,17 +1047,17 @@ def run_tlc_plain(name, module, cfgpath, outdir, timeout=1500, workers=8):
     return st
 
 
-FAMILIES = {"optprod": fam_optprod, "free": fam_free, "env2": lambda t, o: fam_launch("env2", t, o), "two": fam_two, "restart": fam_restart, "threads": fam_threads, "conc": fam_conc, "wincmd": fam_wincmd, "wrapper": fam_wrapper, "faults": fam_faults, "env": lambda t, o: fam_launch("env", t, o), "wiring": lambda t, o: fam_launch("wiring", t, o), "options": lambda t, o: fam_launch("options", t, o),
+FAMILIES = {"real": fam_real, "optprod": fam_optprod, "free": fam_free, "env2": lambda t, o: fam_launch("env2", t, o), "two": fam_two, "restart": fam_restart, "threads": fam_threads, "conc": fam_conc, "wincmd": fam_wincmd, "wrapper": fam_wrapper, "faults": fam_faults, "env": lambda t, o: fam_launch("env", t, o), "wiring": lambda t, o: fam_launch("wiring", t, o), "options": lambda t, o: fam_launch("options", t, o),
             "destroy": fam_destroy, "status": fam_status, "run": fam_run, "stop": fam_stop, "life": fam_life, "poll": fam_poll, "stream": fam_stream, "drain": fam_drain}
 
 PROPS = {
     "C01": {"families": ["status", "stop", "two", "free"], "title": "exit status exact, stable, reaped once"},
     "C06": {"families": ["stop", "faults", "two"], "title": "only the own unreaped child is signalled or waited for"},
     "C07": {"families": ["stop", "free"], "title": "stop sequences"},
-    "C03": {"families": ["env", "env2"], "title": "launch fidelity: argv, environment, working directory, program resolution"},
-    "C12": {"families": ["env", "env2", "faults"], "title": "start leaves the caller untouched and gives the child a clean signal state"},
-    "C10": {"families": ["wiring"], "title": "each standard stream is connected exactly where the options say"},
-    "C11": {"families": ["wiring", "env2", "conc"], "title": "nothing else is inherited"},
+    "C03": {"families": ["env", "env2", "real"], "title": "launch fidelity: argv, environment, working directory, program resolution"},
+    "C12": {"families": ["env", "env2", "faults", "real"], "title": "start leaves the caller untouched and gives the child a clean signal state"},
+    "C10": {"families": ["wiring", "real"], "title": "each standard stream is connected exactly where the options say"},
+    "C11": {"families": ["wiring", "env2", "conc", "real"], "title": "nothing else is inherited"},
     "C13": {"families": ["options", "optprod"], "title": "options rejected up front, accepted as documented"},
     "C04": {"families": ["faults", "env", "wiring", "restart"], "title": "start is all-or-nothing and reports the real cause"},
     "C05": {"families": ["faults", "wiring", "life"], "title": "no leak, no foreign or double close"},
